@@ -1,4 +1,5 @@
 import I2N.Lemmas.ToolsFlags
+import I2N.Lemmas.ToolsReach
 /-!
 # C15 — The update tool reruns exactly the requested path and drops only its dependants
 
@@ -14,37 +15,41 @@ vm's tree of setup states the run-flagged set `anc(to) \ anc(from) ∪ {from}` i
 namespace I2N.Props.C15
 open I2N.Tools
 
-theorem bind_ok {α β : Type} {x : Except Err α} {f : α → Except Err β} {y : β} (h : (x >>= f) = .ok y) :
-    ∃ a, x = .ok a ∧ f a = .ok y := by
-  cases x with
-  | error e => simp [bind, Except.bind] at h
-  | ok a => exact ⟨a, rfl, h⟩
-
-theorem mapAssertion_ok {r : Except Err Flags} {fl : Flags} (h : mapAssertion r = .ok fl) : r = .ok fl := by
-  unfold mapAssertion at h
-  split at h
-  · simp at h
-  · exact h
-
 /-! ## one pass -/
 
-/-- **`flag_children`** (as `update` uses it for the clean pass: `skip_parents=True`): the policy goes to exactly the
-nodes reachable from the root through at least one cleanup edge — the strict descendants of the state's node — and the
-root itself, everything above it and every unrelated node keep what they had; the other flag type is untouched.
-Partial: "reachable" is bounded by `|nodes|` further edges below a child of the root; that no simple path in an acyclic
-graph is longer is not proved here. -/
-theorem clean_flags_exact_partial (g : UGraph) (fl fl' : Flags) (state : List String) (vm : String) (sel : Option (String × String))
+/-- **clean_flags_exact** — `flag_children` as `update` uses it for the clean pass (`skip_parents=True`): the root `r`
+(the state's node) is unique, and the policy goes to exactly the *strict descendants* of `r` — the nodes reachable from
+a child of `r` along any number of cleanup edges (`Reach`) — while `r` itself, everything above it and every unrelated
+node keep what they had; the run flags are untouched.  (That `|nodes|` layers of the worklist reach every descendant
+is `Steps.bounded`: a longer walk repeats a node and can be cut short.) -/
+theorem clean_flags_exact (g : UGraph) (fl fl' : Flags) (state : List String) (vm : String) (sel : Option (String × String))
     (p : Pol) (h : flagChildren g fl state vm sel .clean p true false = .ok fl') :
     ∃ r, selectRoots g state vm sel = [r] ∧
-      (∀ m, (∃ c ∈ (g.node r).children, ∃ j, j ≤ g.nodes.length ∧ Steps g j c m) → fl'.clean m = p) ∧
-      (∀ m, ¬(∃ c ∈ (g.node r).children, ∃ j, j ≤ g.nodes.length ∧ Steps g j c m) → fl'.clean m = fl.clean m) ∧
+      (∀ m, (∃ c ∈ (g.node r).children, Reach g c m) → fl'.clean m = p) ∧
+      (∀ m, ¬(∃ c ∈ (g.node r).children, Reach g c m) → fl'.clean m = fl.clean m) ∧
       (∀ m, fl'.run m = fl.run m) := by
   obtain ⟨r, hr, h1, h2⟩ := flagChildren_ok h
-  have key : ∀ m, m ∈ flaggedBy g r true false ↔ ∃ c ∈ (g.node r).children, ∃ j, j ≤ g.nodes.length ∧ Steps g j c m := by
-    intro m; simp [flaggedBy, mem_reachWithin]
+  have key : ∀ m, m ∈ flaggedBy g r true false ↔ ∃ c ∈ (g.node r).children, Reach g c m := by
+    intro m
+    simp only [flaggedBy, if_true, Bool.false_eq_true, if_false, mem_reachWithin]
+    constructor
+    · rintro ⟨c, hc, j, hj, hs⟩; exact ⟨c, hc, (reach_iff_within g c m).mpr ⟨j, hj, hs⟩⟩
+    · rintro ⟨c, hc, hreach⟩
+      obtain ⟨j, hj, hs⟩ := (reach_iff_within g c m).mp hreach
+      exact ⟨c, hc, j, hj, hs⟩
   refine ⟨r, hr, fun m hm => ?_, fun m hm => ?_, fun m => h2 .run m (by decide)⟩
   · have := h1 m; rw [if_pos ((key m).mpr hm)] at this; exact this
   · have := h1 m; rw [if_neg (fun x => hm ((key m).mp x))] at this; exact this
+
+/-- the set `update_flags_exact` speaks about is the set of strict descendants -/
+theorem flaggedBy_iff_descendant (g : UGraph) (r m : Nat) :
+    m ∈ flaggedBy g r true false ↔ ∃ c ∈ (g.node r).children, Reach g c m := by
+  simp only [flaggedBy, if_true, Bool.false_eq_true, if_false, mem_reachWithin]
+  constructor
+  · rintro ⟨c, hc, j, hj, hs⟩; exact ⟨c, hc, (reach_iff_within g c m).mpr ⟨j, hj, hs⟩⟩
+  · rintro ⟨c, hc, hreach⟩
+    obtain ⟨j, hj, hs⟩ := (reach_iff_within g c m).mp hreach
+    exact ⟨c, hc, j, hj, hs⟩
 
 /-- the run pass for `from_state` (`skip_children=True`): only the state's own node gets the policy -/
 theorem from_flag_exact (g : UGraph) (fl fl' : Flags) (state : List String) (vm : String) (sel : Option (String × String))
@@ -92,7 +97,7 @@ def finalRun (u : UpdateIn) (g : UGraph) (fromNode : Option Nat) (m : Nat) : Pol
 /-- **run_flags_exact / clean_flags_exact / others_untouched** for the whole flagging sequence (one variant per vm):
 if `update` gets through its passes then
 * the `to_state` node `rt` exists and is unique for this vm and worker; the clean policy `cloneFree` is on exactly the
-  nodes below it (`flaggedBy … skip_parents`), `never` on every other node of the graph — in particular on `rt` itself,
+  nodes below it (`flaggedBy … skip_parents` = its strict descendants, `flaggedBy_iff_descendant`), `never` on every other node of the graph — in particular on `rt` itself,
   on everything before it and on every node that is not derived from it;
 * the run policy `notFinishedOrRerun` is on exactly `anc(to) \ anc(from) ∪ {from}` (in terms of `hit`: the nodes the
   `all..<to_state>` graph contains, minus those the `all..<from_state>` graph contains, plus the unique `from_state`
@@ -218,8 +223,8 @@ def exGraph : UGraph := { nodes := [
   { name := "all.internal.on_customize.vm1.cf.net1", setless := "internal.on_customize.vm1.cf.net1", variants := ["all", "internal", "on_customize", "vm1", "cf", "net1"],
     vms := ["vm1"], worker := "net1", compForms := ["cf"], sets := [("vm1", "on_customize")], children := [] }] }
 
-def exUpdate (frm to : String) (runIdx skipIdx : List Nat) : UpdateIn :=
-  { vm := "vm1", worker := "net1", compForms := ["cf"], fromState := frm, toState := to, fromVars := [frm], toVars := [to],
+def exUpdate (frm tgt : String) (runIdx skipIdx : List Nat) : UpdateIn :=
+  { vm := "vm1", worker := "net1", compForms := ["cf"], fromState := frm, toState := tgt, fromVars := [frm], toVars := [tgt],
     clean := some exGraph,
     runNames := "all.internal.stateless.noop" :: runIdx.map (fun i => (exGraph.node i).name),
     skipNames := "all.internal.stateless.noop" :: skipIdx.map (fun i => (exGraph.node i).name) }
